@@ -163,7 +163,7 @@ func c02Stress(c *mon.Ctx, r *mon.Rand) {
 		opts.Reporter = pr
 	}
 	creators := r.Bool() // set up before the root exists: its ticker goroutine reads rec.Delay
-	// half of the runs: a wide registry (40 subscopes over 4-16 shards), four of
+	// half of the runs: a wide registry (40 subscopes over 4-16 shards), sixteen of
 	// the gauges on the root scope itself, and a reporter whose gauge writes are
 	// slow now and then - the order in which one pass delivers must still be the
 	// order in which it read
@@ -177,7 +177,7 @@ func c02Stress(c *mon.Ctx, r *mon.Rand) {
 				}
 			}
 			if wide && k == mon.EvGauge {
-				if n := atomic.AddUint64(&gn, 1); n%5 == 0 {
+				if n := atomic.AddUint64(&gn, 1); n%3 == 0 {
 					time.Sleep(time.Duration(20+n%100) * time.Microsecond)
 				}
 			}
@@ -199,7 +199,7 @@ func c02Stress(c *mon.Ctx, r *mon.Rand) {
 	gauges := make([]tally.Gauge, G)
 	names := make([]string, G)
 	for i := range gauges {
-		if wide && i < 4 {
+		if wide && i < 16 {
 			gauges[i] = root.Gauge(fmt.Sprintf("g%d", i))
 			names[i] = fmt.Sprintf("g%d", i)
 			continue
@@ -233,6 +233,10 @@ func c02Stress(c *mon.Ctx, r *mon.Rand) {
 					last[i] = bits
 					updates[i]++
 					gauges[i].Update(math.Float64frombits(bits))
+					if wide {
+						// spread the updates over several passes
+						time.Sleep(time.Duration(ur.Range(1, 40)) * time.Microsecond)
+					}
 				}
 			}(u)
 		}
